@@ -21,6 +21,7 @@
 #
 """Module for the InversePowerPotential class."""
 import logging
+import math
 from typing import MutableSequence, Sequence
 from jellyfysh.base.exceptions import ConfigurationError
 from jellyfysh.base.logging import log_init_arguments
@@ -140,7 +141,11 @@ class InversePowerPotential(StandardVelocityInvertiblePotential):
         float
             The potential.
         """
-        return charge_product * self._prefactor / vectors.norm_sq(separation) ** self._power_over_two
+        norm_sq_of_separation = vectors.norm_sq(separation)
+        if norm_sq_of_separation == 0.0:
+            # The potential diverges at a vanishing separation (e.g., at the closest approach of a head-on collision).
+            return math.copysign(float("inf"), charge_product * self._prefactor)
+        return charge_product * self._prefactor / norm_sq_of_separation ** self._power_over_two
 
     def _displacement_repulsive(self, direction: int, charge_product: float, potential_change: float,
                                 separation: Sequence[float]) -> float:
